@@ -67,6 +67,12 @@ Theorem C10_ilp_monitor_every_instant : forall I p, req_nonneg I -> capacity_ho_
 Proof. exact capacity_ho_every_instant. Qed.
 Print Assumptions C10_ilp_monitor_every_instant.
 
+(* the hypothesis monitor M-hyp (dep_linkedb on every instance the real get_schedulable_tasks produced) decides a
+   sufficient condition for the hypothesis dep_linked of the capacity theorem *)
+Theorem C10_ilp_hypothesis_monitor_sound : forall I, nodup_ids I -> dep_linkedb I = true -> dep_linked I.
+Proof. exact dep_linkedb_sound. Qed.
+Print Assumptions C10_ilp_hypothesis_monitor_sound.
+
 (* FINDING ILP-H1: "returns normally" is false of the code as written — schedule() raises AttributeError
    when a SCHEDULED task has a strategy that does not fit on some worker (ilp_scheduler.py:248-255) *)
 Theorem C10_ilp_returns_normally_refuted : exists I, nodup_ids I /\ rt_nonneg I /\ ilp_raises I = true.
